@@ -787,7 +787,7 @@ def as_set(forest_or_tree):
     return {r: as_set(c) for r, c in forest_or_tree.items()}
 
 
-def run_gen_real(c, t_list, u1, u2):
+def run_gen_real(c, t_list, u1, u2, no_new=False):
     from annet import gen as ann_gen
     dev = gen_device(c)
     vendor = dev.hw.vendor
@@ -798,7 +798,7 @@ def run_gen_real(c, t_list, u1, u2):
     dg = ann_gen.DeviceGenerators(partial={dev: gens}, ref={dev: []})
     ctx = ann_gen.OldNewDeviceContext(
         config="running", args=args, downloaded_files={}, failed_files={}, running={dev: "\n".join(forest_text(t_list)) + "\n"},
-        failed_running={}, no_new=False, stdin=None, add_annotations=False, add_implicit=True, do_files_download=False,
+        failed_running={}, no_new=no_new, stdin=None, add_annotations=False, add_implicit=True, do_files_download=False,
         gens=dg, fetched_packages={}, failed_packages={}, device_count=1, do_print_perf=False)
     r = ann_gen._old_new_per_device(ctx, dev, None)
     if r.err:
@@ -813,10 +813,13 @@ def initial_forest(c):
     return c["initial"]
 
 
-def check_gen(c, t_list, u1, u2, v):
+def check_gen(c, t_list, u1, u2, v, no_new=False):
     case = {"part": "gen", "cls": c["name"], "t": t_list, "u1": u1, "u2": u2}
+    if no_new:
+        # `--clear`: the generators' output is discarded, the desired configuration is the empty one - completed like any other
+        case["no_new"] = 1
     try:
-        r = run_gen_real(c, t_list, u1, u2)
+        r = run_gen_real(c, t_list, u1, u2, no_new)
     except Exception as e:  # noqa
         v({"kind": "gen-raises", "group": c["group"], "exc": type(e).__name__}, case, "%s: %s" % (type(e).__name__, e))
         return 0
@@ -824,15 +827,15 @@ def check_gen(c, t_list, u1, u2, v):
         # an empty device text makes annet start from the vendor's initial configuration (generators.run_partial_initial)
         t_list = initial_forest(c)
     exp = {"old": R.expected_completion(c["rules_ref"], t_list),
-           "new": R.expected_completion(c["rules_ref"], union_forest(u1, u2)),
-           "safe_new": R.expected_completion(c["rules_ref"], u2),
+           "new": R.expected_completion(c["rules_ref"], [] if no_new else union_forest(u1, u2)),
+           "safe_new": R.expected_completion(c["rules_ref"], [] if no_new else u2),
            "safe_old": R.expected_completion(c["rules_ref"], t_list)}
     for what, e in exp.items():
         got = as_set(getattr(r, what))
         if got != as_set(e):
             extra = R.rows_not_in(env.tree_to_list(getattr(r, what)), e)
             missing = R.rows_not_in(e, env.tree_to_list(getattr(r, what)))
-            v({"kind": "gen-completion-differs", "tree": what, "group": c["group"],
+            v({"kind": "gen-completion-differs", "tree": what, "group": c["group"], "mode": "clear" if no_new else "gen",
                "effect": "rows added" if extra and not missing else "rows missing" if missing and not extra else "both"},
               case, "%s: annet=%r reference=%r" % (what, env.tree_to_list(getattr(r, what)), e))
     # non-trivial: the safe tree and the full tree are completed differently (a block of one is missing in the other)
@@ -848,6 +851,14 @@ def run_gen(block, ctx):
         ts = ts[:2]
     u1s = pair_forests(c, block["k1"])
     u2s = pair_forests(c, block["k2"])
+    if block["slice"] == 0:
+        # `annet ... --clear` (no_new): every device text against the empty desired configuration
+        for t_list in pair_forests(c, block["kt"]):
+            check_gen(c, t_list, u1s[-1], u2s[-1], ctx.violation, no_new=True)
+            ctx.evals += 4
+            ctx.states += 1
+            ctx.outcomes["gen:clear"] += 1
+            ctx.extra["gen_cases"] += 1
     for u1 in u1s[block["slice"]::block["of"]]:
         for u2 in u2s:
             for t_list in ts:
@@ -897,7 +908,7 @@ def replay(case):
     elif case["part"] == "tree":
         check_tree(cls(case["cls"]), case["t"], v)
     elif case["part"] == "gen":
-        check_gen(cls(case["cls"]), case["t"], case["u1"], case["u2"], v)
+        check_gen(cls(case["cls"]), case["t"], case["u1"], case["u2"], v, bool(case.get("no_new")))
     else:
         check_pair(cls(case["cls"]), case["t"], case["u"], v)
     return out
